@@ -15,7 +15,17 @@ for d in sorted(glob.glob(os.path.join(HERE, "seeded", "C*-*"))):
     caught = [p for p, v in det.items() if v]
     own = m.get("property")
     tier = ",".join(sorted(set(c.get("tier", "quick") for c in checks.values()))) or "quick"
-    if det.get(own):
+    fin = m.get("final", {})
+    if fin:
+        parts = []
+        for tr in ("quick", "thorough"):
+            if tr in fin:
+                e = fin[tr].get("exit")
+                parts.append("%s: %s" % (tr, {1: "caught", 0: "MISSED", 2: "inconclusive"}.get(e, str(e))))
+        verdict = "%s %s" % (own, ", ".join(parts))
+        if not any(v.get("exit") == 1 for v in fin.values()) and caught:
+            verdict += "; caught by " + "+".join(c for c in caught if c != own)
+    elif det.get(own):
         verdict = "caught by %s (%s)" % (own, tier)
     elif caught:
         verdict = "caught by %s (%s); not by %s" % ("+".join(caught), tier, own)
@@ -30,4 +40,4 @@ out = ["# Seeded changes", "",
 for r in rows:
     out.append("| %s | %s | %s | %s | %s | %s |" % (r[0], r[1], r[2][:400], r[3][:300], r[4], r[5]))
 open(os.path.join(HERE, "seeded", "README.md"), "w").write("\n".join(out) + "\n")
-print("rows:", len(rows), "missed:", [r[0] for r in rows if r[4].startswith("MISSED")])
+print("rows:", len(rows), "not caught by quick:", [r[0] for r in rows if "quick: caught" not in r[4] and not r[4].startswith("caught by " + r[1])])
